@@ -304,3 +304,60 @@ func VP_C17_SymEigVector() {
 	vp.Assert(vp.All(out.X == val*v.X, out.Y == val*v.Y, out.Z == val*v.Z), "symEigVector(val) is an eigenvector for val")
 	vp.Reach("end")
 }
+
+// VP_C06_TransformedSphereSDF: TransformSDF of a sphere's field under a
+// composite distance transform is the closed-form field of the image sphere
+// (still a Euclidean distance): scale-then-translate, translate-then-scale
+// and scale-translate-scale.
+func VP_C06_TransformedSphereSDF() {
+	s := &Sphere{Center: vpPoint("center"), Radius: vp.Float64("radius")}
+	vp.Assume(s.Radius > 0)
+	k1, k2 := vp.Float64("scale1"), vp.Float64("scale2")
+	vp.Assume(vp.And(k1 > 0, k2 > 0))
+	off := vpPoint("off")
+	var t JoinedTransform
+	var img Coord3D // image of the centre
+	var k float64   // total scale
+	switch vp.Param("kind") {
+	case 0:
+		t = JoinedTransform{&Scale{Scale: k1}, &Translate{Offset: off}}
+		img, k = s.Center.Scale(k1).Add(off), k1
+	case 1:
+		t = JoinedTransform{&Translate{Offset: off}, &Scale{Scale: k1}}
+		img, k = s.Center.Add(off).Scale(k1), k1
+	case 2:
+		t = JoinedTransform{&Scale{Scale: k1}, &Translate{Offset: off}, &Scale{Scale: k2}}
+		img, k = s.Center.Scale(k1).Add(off).Scale(k2), k1*k2
+	}
+	f := TransformSDF(t, s)
+	q := vpPoint("q")
+	d := q.Sub(img)
+	v := k*s.Radius - f.SDF(q)
+	vp.Assert(vp.And(v >= 0, v*v == d.Dot(d)), "transformed field is (total scale * radius) minus the distance to the image centre")
+	vp.Reach("end")
+}
+
+// VP_C06_SafeNormal: the normal helper behind the Capsule/Cylinder/Cone
+// side normals. For a symbolic non-zero direction d and the invalid (axis)
+// direction z: when the part of d perpendicular to the axis is at least 1e-5
+// of |d| the result is that part, normalised - whatever the magnitude of d
+// (points arbitrarily close to the axis) - otherwise it is the fallback.
+func VP_C06_SafeNormal() {
+	d := vpPoint("d")
+	axis, fallback := Z(1), X(1)
+	n2 := d.Dot(d)
+	vp.Assume(n2 > 0)
+	r := safeNormal(d, fallback, axis)
+	p2 := d.X*d.X + d.Y*d.Y // squared norm of the perpendicular part
+	l := vp.Float64("perpnorm")
+	vp.Assume(l >= 0)
+	vp.AssumeEq(l*l, p2)
+	if vp.Choice("case", 2) == 0 {
+		vp.Assume(p2 > 1.0001e-10*n2)
+		vp.Assert(vp.All(r.X*l == d.X, r.Y*l == d.Y, r.Z == 0), "result is the normalised perpendicular part of the direction, at any magnitude")
+	} else {
+		vp.Assume(p2 < 0.9999e-10*n2)
+		vp.Assert(vpEqC(r, fallback), "a direction (numerically) along the axis gives the fallback")
+	}
+	vp.Reach("end")
+}
